@@ -44,6 +44,7 @@ type HistCase struct {
 	Width   int        `json:"width"`
 	Height  int        `json:"height"`
 	HookMs  int        `json:"hook_ms,omitempty"` // > 0: the media hook runs this long and keys are not held back until it ends
+	Jitter  int64      `json:"jitter,omitempty"`  // > 0: every response is delayed by 0..8 ms
 }
 
 const settle = 60 * time.Second
@@ -126,6 +127,10 @@ func RunHistory(sim *vsim.Sim, c HistCase, opt Options) vrep.Result {
 	}
 	c.Events = events
 	config.Parsed.Network.Context = c.Preload
+	if c.Jitter > 0 {
+		sim.SetJitter(c.Jitter)
+		defer sim.SetJitter(0)
+	}
 	config.Parsed.Media.Hook = []string{"true"}
 	if opt.Hook != nil {
 		config.Parsed.Media.Hook = opt.Hook
@@ -154,6 +159,7 @@ func RunHistory(sim *vsim.Sim, c HistCase, opt Options) vrep.Result {
 	}
 	classes := []string{}
 	d := NewDriver(c.Width, c.Height)
+	d.InFlight = sim.InFlight
 	m := NewModel(c.World)
 	m.Mode = "normal"
 	// start-up, as main does
@@ -196,12 +202,72 @@ func RunHistory(sim *vsim.Sim, c HistCase, opt Options) vrep.Result {
 	}
 	pagesOpened, maxCursor, usedSelection, usedCommand, walked, soft := 0, 0, false, false, false, 0
 	trace := []string{}
+	bounced := false
 	for ei, e := range c.Events {
 		if e.Kind == "resize" {
 			d.Resize(e.W, e.H)
 			trace = append(trace, fmt.Sprintf("resize %dx%d", e.W, e.H))
 			if err := drain(d); err != nil {
 				return vrep.Result{Classes: classes, Err: fmt.Errorf("event %d (%s): %v", ei, trace[len(trace)-1], err)}
+			}
+			continue
+		}
+		if e.Kind == "bounce" {
+			// keys whose effect does not depend on what has been loaded (open the item under the cursor as a page, walk the
+			// history), issued back to back: a page is left while its first batch is still in flight and visited again
+			models := []*Model{m}
+			for _, k := range e.Seq {
+				b := byte(k)
+				trace = append(trace, fmt.Sprintf("%q!", rune(b)))
+				done := make(chan struct{})
+				go func() { d.S.Update(b); close(done) }()
+				select {
+				case <-done:
+				case <-time.After(settle):
+					return vrep.Result{Classes: classes, Err: fmt.Errorf("event %d: Update(%q) did not return within %v: the interface is wedged", ei, b, settle)}
+				}
+				next := []*Model{}
+				for _, mm := range models {
+					alt := mm.Step(b, prefix, expand)
+					next = append(next, mm)
+					if alt != nil && len(next) < 8 {
+						next = append(next, alt)
+					}
+				}
+				models = next
+			}
+			snap, err := d.Settle(settle)
+			if err != nil {
+				return vrep.Result{Classes: classes, Err: fmt.Errorf("event %d, after the unsettled keys %v: %v", ei, trace, err)}
+			}
+			if err := drain(d); err != nil {
+				return vrep.Result{Classes: classes, Err: fmt.Errorf("event %d (last keys %v): %v", ei, trace, err)}
+			}
+			if err := screenShowsState(d, snap, lastFrame); err != nil {
+				return vrep.Result{Classes: classes, Err: fmt.Errorf("event %d, after the unsettled keys %v: %v", ei, trace, err)}
+			}
+			if !opt.NoModel {
+				var firstErr error
+				chosen := -1
+				for i, mm := range models {
+					if err := compare(c.World, mm, snap, false); err == nil {
+						chosen = i
+						break
+					} else if firstErr == nil {
+						firstErr = err
+					}
+				}
+				if chosen < 0 {
+					return vrep.Result{Classes: classes, Err: fmt.Errorf("event %d, after the unsettled keys %v: %v", ei, trace, firstErr)}
+				}
+				m = models[chosen]
+				if err := pageIntegrity(c.World, m, d, snap); err != nil && len(models) == 1 {
+					return vrep.Result{Classes: classes, Err: fmt.Errorf("event %d, after the unsettled keys %v: %v", ei, trace, err)}
+				}
+			}
+			bounced = true
+			if len(trace) > 12 {
+				trace = trace[len(trace)-12:]
 			}
 			continue
 		}
@@ -296,6 +362,9 @@ func RunHistory(sim *vsim.Sim, c HistCase, opt Options) vrep.Result {
 		}
 		classes = append(classes, "slow-hook")
 	}
+	if bounced {
+		classes = append(classes, "left-a-page-mid-load-and-returned")
+	}
 	if pagesOpened >= 1 {
 		classes = append(classes, "opened-further-pages")
 	}
@@ -347,6 +416,9 @@ func GenHistCase(t *rapid.T) HistCase {
 	if rapid.IntRange(0, 3).Draw(t, "slowhook") == 0 {
 		c.HookMs = rapid.SampledFrom([]int{30, 80, 150}).Draw(t, "hookms")
 	}
+	if rapid.IntRange(0, 2).Draw(t, "jittered") == 0 {
+		c.Jitter = int64(rapid.IntRange(1, 1<<30).Draw(t, "jitter"))
+	}
 	n := rapid.IntRange(1, 60).Draw(t, "nevents")
 	for i := 0; i < n; i++ {
 		switch k := rapid.IntRange(0, 19).Draw(t, "eventkind"); {
@@ -356,6 +428,17 @@ func GenHistCase(t *rapid.T) HistCase {
 			// a run of moves in one direction, to leave the first preload window
 			dir := rapid.SampledFrom([]int{'j', 'j', 'k'}).Draw(t, "rundir")
 			for r := rapid.IntRange(3, 14).Draw(t, "runlen"); r > 0; r-- {
+				c.Events = append(c.Events, Event{Kind: "key", B: dir})
+			}
+		case k == 12 && c.HookMs == 0 && rapid.Bool().Draw(t, "bounce"):
+			// open the item under the cursor and leave / revisit the new page before its first batch has arrived; then move
+			// beyond that batch
+			c.Events = append(c.Events, Event{Kind: "bounce", Seq: rapid.SampledFrom([][]int{{' ', 'h'}, {' ', 'h', 'l'}, {' ', 'h', 'l', 'h'}, {' ', ' ', 'h', 'h'}, {' ', 'h', 'l', 'h', 'l'}}).Draw(t, "bounceseq")})
+			if rapid.Bool().Draw(t, "bounceback") {
+				c.Events = append(c.Events, Event{Kind: "key", B: 'l'})
+			}
+			dir := rapid.SampledFrom([]int{'j', 'k', 'k'}).Draw(t, "bouncedir")
+			for r := rapid.IntRange(2, 12).Draw(t, "bouncerun"); r > 0; r-- {
 				c.Events = append(c.Events, Event{Kind: "key", B: dir})
 			}
 		case k == 12:
